@@ -186,6 +186,9 @@ type Scenario struct {
 	CropCols   []OutCol
 
 	ExtraArgs []string // extra key=value tokens on the batch line
+	// fault injection for C11: the polygon file may name another soil id / field id than the soil / rotation files know
+	PolySID     string
+	PolyFieldID string
 	// FileOverrides: key -> YAML value text that replaces (or adds) the key in config.yml (decoy values for C14)
 	FileOverrides map[string]string
 
